@@ -188,6 +188,15 @@ theorem pinv_step (c : Cfg) (dest0 : List Stored) (s : PSt) (op : POp) (h : PInv
         · intro j b hb; have := h.subsIn j b hb; simp only [BIn, hcs.1, hend] at this ⊢; exact this
         · intro b hb; have := h.chanIn b hb; simp only [BIn, hcs.1, hend] at this ⊢; exact this
         · intro x hx; have := h.added x hx; simp only [hcs.1, hend]; exact this
+      | abandon w =>
+        have hd := step_delivered_other c s.f (.abandon w) (by simp) (by simp)
+        refine ⟨hfi, ?_, ?_, ?_, ?_, ?_, ?_, h.ackedIn, h.mono⟩
+        · intro i; simp only [hd]; exact h.stage i
+        · intro hl; exact cancel_mono c s.f _ (h.lostc hl)
+        · intro hf; exact cancel_mono c s.f _ (h.failc hf)
+        · intro j b hb; have := h.subsIn j b hb; simp only [BIn, hcs.1, hend] at this ⊢; exact this
+        · intro b hb; have := h.chanIn b hb; simp only [BIn, hcs.1, hend] at this ⊢; exact this
+        · intro x hx; have := h.added x hx; simp only [hcs.1, hend]; exact this
       | close =>
         have hd := step_delivered_other c s.f .close (by simp) (by simp)
         refine ⟨hfi, ?_, ?_, ?_, ?_, ?_, ?_, h.ackedIn, h.mono⟩
@@ -360,6 +369,7 @@ theorem pstep_consts (c : Cfg) (s : PSt) (op : POp) :
         · exact ⟨rfl, rfl⟩
       | hand w => exact ⟨hcs.1, hcs2⟩
       | err w => exact ⟨hcs.1, hcs2⟩
+      | abandon w => exact ⟨hcs.1, hcs2⟩
       | close => exact ⟨hcs.1, hcs2⟩
       | cancel => exact ⟨hcs.1, hcs2⟩
       | respRaw w k => simp [fetchOpOk] at hok
